@@ -15,7 +15,9 @@ def main():
     out = tempfile.mkdtemp(prefix="hgv-matrix-out-", dir="/tmp")
     assert sh(f"git -C /repo worktree add -q {wt} HEAD").returncode == 0
     env = dict(os.environ, VERIF_REPO=wt, VERIF_OUT=out)
-    matrix = json.load(open(f"{SEEDED}/matrix.json")) if os.path.exists(f"{SEEDED}/matrix.json") else {}
+    seed = os.environ.get("VERIF_SEED", "0") or "0"
+    MATRIX = f"{SEEDED}/matrix.json" if seed == "0" else f"{SEEDED}/matrix_seed{seed}.json"
+    matrix = json.load(open(MATRIX)) if os.path.exists(MATRIX) else {}
     try:
         for sid in sorted(d for d in os.listdir(SEEDED) if os.path.isdir(f"{SEEDED}/{d}") and not d.startswith("_")):
             if only and sid not in only and sid.split("-")[0] not in only:
@@ -41,7 +43,7 @@ def main():
             matrix[sid] = {"property": prop, "check_exit": p.returncode, "caught": p.returncode == 1, "n_violation_lines": len([l for l in lines if l.startswith("VIOLATION")]),
                            "first_kind": kind, "first_what": what, "mechanisms": next((l[len("MECHANISMS "):] for l in p.stdout.splitlines() if l.startswith("MECHANISMS ")), ""), "wall_s": round(time.time() - t0, 1), "summary": [l for l in p.stdout.splitlines() if " tier=" in l][-1:] }
             print(sid, matrix[sid]["check_exit"], matrix[sid]["first_kind"], what[:100], flush=True)
-            json.dump(matrix, open(f"{SEEDED}/matrix.json", "w"), indent=1)
+            json.dump(matrix, open(MATRIX, "w"), indent=1)
     finally:
         sh(f"git -C /repo worktree remove --force {wt}")
         sh(f"rm -rf {out}")
